@@ -20,7 +20,7 @@ func init() {
 		Explain: "structural clauses of the round-trip property, decided on all paths: " +
 			"(a) size caps: every read of a descriptor's content in the registry package (content.FetchAll, content.ReadAll, Fetch on an oras-go storage) is reachable only through `D.Size <= positive constant` on the very descriptor D it reads (per loop iteration inside loops; when D is a parameter of an unexported helper that does not test it, at every call site of the helper); " +
 			"(b) fetch: FetchSignatureBlob succeeds only through the manifest lookup, the blob cap and the fetch of the looked-up descriptor (FetchAll, or a module function that is Fetch + ReadAll on one descriptor), returning that fetch's bytes and that descriptor; the lookup succeeds only for the two manifest media types " +
-			"(tested in the lookup or in a helper that succeeds only through such a test), through the manifest cap, the fetch of the capped descriptor, a decode (inline or in a helper) into the manifest type that belongs to the media type, and exactly one layer/blob, returning element 0 of the decoded list; the blob store is decided on every value the fetcher expression can take (phis, returns of an accessor function); " +
+			"(tested in the lookup or in a helper that succeeds only through such a test — an edge of the helper or the comparison it returns —, or by membership in a read-only package-level table whose constant keys are the two types), through the manifest cap, the fetch of the capped descriptor, a decode (inline, in a helper, or in the function a read-only media-type -> decoder table holds under that media type) into the manifest type that belongs to the media type, and exactly one layer/blob, returning element 0 of the decoded list; the blob store is decided on every value the fetcher expression can take (phis, returns of an accessor function); " +
 			"(c) listing: the listing either asks the referrers API for (subject, notation artifact type) or filters predecessors: an element is appended only, per iteration and per media type (on the paths an element of that media type can take, whatever the dispatch looks like), through cap, fetch, decode into a per-iteration fresh target of the right type, " +
 			"non-nil subject, content.Equal(decoded subject, requested descriptor) or its three field comparisons, a test against the notation type of the artifact type the listed descriptor carries, which is the one decoded from the manifest of that iteration; the listed descriptor is a per-iteration copy of the current predecessor whose identity fields nobody writes; failures return no list; any stretch of this per-iteration work may stand in module functions whose success is must-pass in the loop (their facts are read with the parameters replaced by the arguments, restricted to the paths the media type allows; the values they hand back — a record, a pointer to one, several results — are followed to the decoded manifest's fields); " +
 			"(d) push: the blob is pushed (PushBytes, NewDescriptorFromBytes + Push of a reader over the same bytes, or a module function that is that upload) with the caller's media type and bytes, the manifest packed (v1.1, artifact type from the config) at the one PackManifest call of PushSignature or of the module functions it calls, with — in PushSignature's terms, parameters replaced by arguments along the call chain — subject, annotations and exactly the pushed blob's descriptor as single layer, the packed descriptor handed up unchanged, the config descriptor being the immutable notation config whose media type is the notation artifact type the listing filters on.",
@@ -340,7 +340,26 @@ func c19Fetch(c *Ctx) {
 	// helper reported no error" are cut
 	blockedAll, nGates := true, 0
 	var dwit []string
-	for _, f := range w.moduleCallees(G) {
+	// (the functions on the way: the lookup's static callees and — when the decode is dispatched through a read-only
+	// table — the functions of the table, which the resolver recorded gates for)
+	way := w.moduleCallees(G)
+	onWay := map[*ssa.Function]bool{}
+	for _, f := range way {
+		onWay[f] = true
+	}
+	var viaTable []*ssa.Function
+	for f := range rs.gates {
+		if !onWay[f] {
+			viaTable = append(viaTable, f)
+		}
+	}
+	sort.Slice(viaTable, func(i, j int) bool {
+		if viaTable[i].String() != viaTable[j].String() {
+			return viaTable[i].String() < viaTable[j].String()
+		}
+		return viaTable[i].Pos() < viaTable[j].Pos()
+	})
+	for _, f := range append(way, viaTable...) {
 		ls := rs.gates[f]
 		if len(ls) == 0 {
 			continue
@@ -542,7 +561,20 @@ func c19Referrers(c *Ctx, SR *ssa.Function) {
 	}
 	bodyStart := []state{{loop.Body.Index, 0, -1}}
 	// every path body -> append passes an edge "media type == one of the two constants"
-	cut := union(backEdges(loop.Header), c19EdgesLabelled(SR, lb, mtFact("EQ", am)), c19EdgesLabelled(SR, lb, mtFact("EQ", im)))
+	// (an edge "passes a media-type test" when its condition implies one of the two equalities — c19Implies: the
+	// comparison itself, a module predicate that answers only through such a comparison, membership in a read-only
+	// table whose keys are the two constants)
+	eitherMT := mtFact("EQ", am)
+	for l := range mtFact("EQ", im) {
+		eitherMT[l] = true
+	}
+	inLoop := map[edgeKey]bool{}
+	for e := range c19GateCut(w, SR, eitherMT, c19Same, 0) {
+		if lb[e.b] {
+			inLoop[e] = true
+		}
+	}
+	cut := union(backEdges(loop.Header), inLoop)
 	c.Evals++
 	c.Check(app.Block() != loop.Body && !fi.reachHit(bodyStart, cut, blocksOf(app)), "list/only-manifest-media-types", "an element is appended only on a path through one of the two manifest media-type tests", w.InstrPos(app), "the append is reachable without a media-type test on the current referrer")
 	fetches := c19FetchSites(w, SR)
